@@ -10,62 +10,82 @@ import lib
 
 CH = 60000
 
-# (sizes, caps) explored on model and implementation; model cfg per tier
 QUICK_MC = [('MCHeap_quick.cfg', 'sizes 2..6 x caps 1..2, complete'),
             ('MCHeap_quick2.cfg', 'sizes 2..4 x caps 1..3, two codes, complete')]
-THOROUGH_MC = QUICK_MC + [('MCHeap_t123.cfg', 'sizes 7..12 x caps 1..3 and 2..6 x cap 3, complete'),
-                          ('MCHeap_t4a.cfg', 'sizes 2..9 x cap 4, complete'),
-                          ('MCHeap_t4b.cfg', 'sizes 10..12 x cap 4, all histories of <= 8 operations')]
+THOROUGH_MC = QUICK_MC + [('MCHeap_t4e.cfg', 'size 12 x cap 4, all histories of <= 6 operations'),
+                          ('MCHeap_t3d.cfg', 'size 12 x cap 3, complete'),
+                          ('MCHeap_t4b.cfg', 'size 9 x cap 4, complete'),
+                          ('MCHeap_t4d.cfg', 'size 11 x cap 4, all histories of <= 6 operations'),
+                          ('MCHeap_t3c.cfg', 'size 11 x cap 3, complete'),
+                          ('MCHeap_t4a.cfg', 'sizes 2..8 x cap 4, complete'),
+                          ('MCHeap_t3b.cfg', 'sizes 9..10 x cap 3, complete'),
+                          ('MCHeap_t4c.cfg', 'size 10 x cap 4, all histories of <= 6 operations'),
+                          ('MCHeap_t12.cfg', 'sizes 7..12 x caps 1..2, complete'),
+                          ('MCHeap_t3a.cfg', 'sizes 2..8 x cap 3, complete')]
+# implementation state graphs explored (size, cap); the first group is compared state-for-state with MCHeap_quick
 QUICK_X = [(s, c) for s in range(2, 7) for c in (1, 2)]
-QUICK_X_EXTRA = [(7, 3), (8, 2), (12, 1)]
-THOROUGH_X_EXTRA = [(s, c) for s in range(2, 11) for c in (1, 2, 3) if (s, c) not in QUICK_X] + \
-                   [(11, 1), (11, 2), (12, 1), (12, 2)] + [(s, 4) for s in range(2, 8)]
+QUICK_X_EXTRA = [(8, 2), (4, 3), (3, 4), (12, 1)]
+THOROUGH_X_EXTRA = [(s, 1) for s in range(7, 13)] + [(s, 2) for s in range(7, 13)] + [(s, 3) for s in range(2, 10)] + [(s, 4) for s in range(2, 7)]
 
 def kind_of(labels):
     return '+'.join(sorted(labels))
 
-def validate(rep, path, label, locs=None, on_mismatch=None):
-    """Run TVHeap over a transition file (chunks of <= 60000 lines, <= 4 TLC processes); classify."""
-    lines = open(path).read().splitlines()
+class Batch:
+    """Transition records of several driver runs, validated together (fewer JVM starts)."""
+    def __init__(self):
+        self.lines, self.src = [], []        # src[i] = (label, locator, history function)
+    def add(self, nd, locs, hist, label):
+        with open(nd) as f:
+            for i, ln in enumerate(f):
+                self.lines.append(ln.rstrip('\n'))
+                self.src.append((label, locs[i] if locs else None, hist))
+        os.unlink(nd)
+
+def validate(rep, w, batch, label, procs=4, workers=4):
+    """Run TVHeap over the records (chunks of <= 60000 lines, <= procs TLC processes); classify."""
+    lines = batch.lines
     n = len(lines)
     if n == 0:
         rep.broken.append('no transitions recorded for ' + label)
         return 0
-    chunks = [lines[i:i + CH] for i in range(0, n, CH)]
+    ch = min(CH, max(2000, -(-n // procs)))
+    chunks = [lines[i:i + ch] for i in range(0, n, ch)]
     def one(i):
-        p = '%s.c%d' % (path, i)
+        p = '%s/%s.c%d' % (w, label, i)
         with open(p, 'w') as f:
             f.write('\n'.join(chunks[i]) + '\n')
-        r = lib.tlc('TVHeap', 'TVHeap.cfg', workers=4, env={'TRACE': p}, xmx='3g', timeout=600)
+        r = lib.tlc('TVHeap', 'TVHeap.cfg', workers=workers, env={'TRACE': p}, xmx='3g', timeout=600)
         os.unlink(p)
         return i, r
     mism = 0
-    with concurrent.futures.ThreadPoolExecutor(max_workers=4) as ex:
+    with concurrent.futures.ThreadPoolExecutor(max_workers=procs) as ex:
         for i, r in ex.map(one, range(len(chunks))):
             rep.add_tlc('TVHeap:%s:%d' % (label, i), r, 'validation of implementation transitions against layers (a) and (b)')
             if r.distinct != 2 * len(chunks[i]) and not r.errors:
                 rep.broken.append('TVHeap %s chunk %d: %d states for %d lines' % (label, i, r.distinct, len(chunks[i])))
             for p in r.prints:
-                idx = i * CH + p[1] - 1 if len(p) > 1 and isinstance(p[1], int) else None
+                if len(p) < 2 or not isinstance(p[1], int):
+                    continue
+                idx = i * ch + p[1] - 1
+                src = batch.src[idx]
                 if p[0] == 'UNJUDGED':
                     rep.cov['layout_unjudged'] = rep.cov.get('layout_unjudged', 0) + 1
                 elif p[0] == 'LAYOUT':
                     rep.cov['conformance_notes'] = rep.cov.get('conformance_notes', 0) + 1
                     ex_ = rep.cov.setdefault('conformance_note_examples', [])
                     if len(ex_) < 3:
-                        ex_.append(dict(kind='conformance-note', layout_fields=sorted(p[2]), source=label, transition=json.loads(lines[idx])))
+                        ex_.append(dict(kind='conformance-note', layout_fields=sorted(p[2]), source=src[0], transition=json.loads(lines[idx])))
                 elif p[0] == 'MISMATCH':
                     mism += 1
-                    rec = json.loads(lines[idx])
-                    det = dict(source=label, diff=sorted(p[2]), transition=rec)
-                    if on_mismatch and mism <= 3:
-                        det.update(on_mismatch(idx, locs[idx] if locs else None))
+                    det = dict(source=src[0], diff=sorted(p[2]), transition=json.loads(lines[idx]))
+                    if src[2] and mism <= 4:
+                        det.update(src[2](src[1]))
                     rep.violation(kind_of(p[2]), det)
     rep.cov['traces_validated_against_impl'] += n
     rep.cov['evaluations'] += n
     nt = [ln for ln in lines if '"nt":1' in ln]
     rep.cov['distinct_nontrivial'] += len(nt)
-    for ln in nt[:1]:
+    for ln in nt[:2]:
         rep.sample(json.loads(ln))
     return mism
 
@@ -88,13 +108,11 @@ def driver_failure(rep, d, what):
     det = dict(run=what, rc=d['rc'], stderr=err[-2500:])
     if ctx:
         try:
-            det['transition'] = json.loads(ctx[-1][len('DRV_HEAP_CONTEXT '):])
+            det['context'] = json.loads(ctx[-1][len('DRV_HEAP_CONTEXT '):])
         except ValueError:
             pass
     if d['rc'] == 97 and 'AddressSanitizer' in err:
-        k = 'access-outside-heap' if ('heap-buffer-overflow' in err or 'stack-buffer' in err or 'global-buffer' in err) else 'sanitizer-report'
-        if 'WRITE of size' in err:
-            k = 'write-outside-heap'
+        k = 'write-outside-heap' if 'WRITE of size' in err else 'read-outside-heap' if 'READ of size' in err else 'sanitizer-report'
     elif d['rc'] == 98:
         k = 'undefined-behaviour'
     elif d.get('timeout'):
@@ -115,7 +133,7 @@ def explore(rep, exe, w, size, cap, maxstates):
     os.unlink(raw + '.tree'); os.unlink(raw + '.ops')
     nd = raw[:-4] + '.ndjson'
     locs = split_locs(raw, nd)
-    def hist(idx, sid):
+    def hist(sid):
         h = []
         while sid is not None and sid > 0:
             par, op = tree[sid]
@@ -132,70 +150,83 @@ def projections(nd, proj):
 
 def run(pid, tier):
     rep = lib.Report(pid, tier)
+    quick = tier == 'quick'
     rep.cov['rule'] = ('cases = transitions {size, cap, from, op, to, output} of the real allocation-free build: breadth-first exploration of its own '
                        'state graph over the model alphabet and seeded random histories; non-trivial = the pushed text wraps the heap end, its allocation '
                        'fails, or the push overflows the queue and releases text with rollback; distinct = different record')
     rep.assumptions += ['texts are the three shapes all-a / all-b / alternating per length (truncation, merging and foreign text all change such a text)',
                         'the empty text counts as no text',
-                        'the queue index mechanics (fifo wr/rd) are explored on the implementation but are abstracted to a sequence in the model (C10)',
-                        'reads outside the heap are trapped by ASan but only writes are named by the property',
-                        'layout (wr, count, data, pointers) differences from layer (b) alone are conformance notes, not violations']
+                        'the queue index mechanics (fifo wr/rd) are explored on the implementation but abstracted to a sequence in the model (C10)',
+                        'accesses outside the heap block are trapped by ASan (exact-size allocation); the property names writes, reads are reported too',
+                        'layout (wr, count, data, pointers) differences from layer (b) alone are conformance notes, not violations',
+                        'model checking is complete for sizes 2..12 x caps 1..3 and sizes 2..9 x cap 4 (thorough); sizes 10..12 x cap 4 are covered for all histories of <= 6 operations plus random simulation']
     w = lib.workdir(pid)
     exe = lib.build('drv_heap', ['drv_heap.c'], config='heap')
-    # ---- M
-    mcs = QUICK_MC if tier == 'quick' else THOROUGH_MC
+    mcs = QUICK_MC if quick else THOROUGH_MC
     model_states = {}
     def mc(c):
-        return c, lib.tlc('MCHeap', c[0], workers=4 if tier == 'quick' else 8, timeout=840, xmx='6g')
-    with concurrent.futures.ThreadPoolExecutor(max_workers=2) as ex:
-        futs = [ex.submit(mc, c) for c in mcs]
-        if tier == 'thorough':
-            futs.append(ex.submit(lambda: (('MCHeap_sim.cfg', 'size 12..16 x cap 4, random histories of 40 operations'),
-                                           lib.tlc('MCHeap', 'MCHeap_sim.cfg', workers=4, timeout=400, simulate=3000, depth=40))))
-        # ---- X runs concurrently with the model checking
-        pairs = QUICK_X + QUICK_X_EXTRA if tier == 'quick' else QUICK_X + THOROUGH_X_EXTRA
-        proj_quick = set()
-        for (size, cap) in pairs:
-            x = explore(rep, exe, w, size, cap, 400000)
-            if x is None:
-                continue
-            info, nd, locs, hist = x
-            if (size, cap) in QUICK_X:
-                projections(nd, proj_quick)
-            rep.cov['driver_runs'].append(dict(size=size, cap=cap, impl_concrete_states=info['concrete_states'], impl_transitions=info['transitions'],
-                                               alphabet=info['alphabet'], complete=info['complete'], distinct_records=len(locs)))
-            if not info['complete']:
-                rep.broken.append('exploration size=%d cap=%d incomplete' % (size, cap))
-            validate(rep, nd, 'explore-%d-%d' % (size, cap), locs, hist)
-            os.unlink(nd)
-        # ---- V
-        walks = [(16, 2, 20000), (33, 4, 20000), (64, 3, 20000)] if tier == 'quick' else \
-                [(16, 2, 150000), (24, 1, 100000), (33, 4, 150000), (48, 8, 100000), (64, 3, 150000), (64, 6, 150000), (7, 2, 100000), (13, 3, 100000)]
-        for k, (size, cap, steps) in enumerate(walks):
-            raw = '%s/walk%d.raw' % (w, k)
-            sd = lib.seed() * 131 + k
-            d = lib.run_driver(exe, ['walk', sd, steps, size, cap, raw], timeout=600)
-            if d['rc'] != 0:
-                driver_failure(rep, d, 'walk seed=%d steps=%d size=%d cap=%d' % (sd, steps, size, cap))
-                continue
-            nd = raw[:-4] + '.ndjson'
-            locs = split_locs(raw, nd)
-            def hist(idx, step, sd=sd, steps=steps, size=size, cap=cap):
-                dd = lib.run_driver(exe, ['walk', sd, steps, size, cap, '/dev/null', step])
-                h = dd['stdout'].decode().splitlines()
-                return dict(history=h, size=size, cap=cap, walk=dict(seed=sd, step=step)) if dd['rc'] == 0 else dict(walk=dict(seed=sd, step=step, size=size, cap=cap))
-            rep.cov['driver_runs'].append(dict(walk_seed=sd, size=size, cap=cap, steps=steps, distinct_records=len(locs)))
-            validate(rep, nd, 'walk-%d-%d' % (size, cap), locs, hist)
-            os.unlink(nd)
-        for fu in futs:
-            c, r = fu.result()
-            rep.add_tlc(c[0][:-4], r, 'model checking of ScpiHeap layer (b) incl. refinement of layer (a): ' + c[1])
-            model_states[c[0]] = r.distinct
-            if r.violations:
-                rep.broken.append('the ring-algorithm model violates %s in %s (replay the counterexample on the heap build)' % (r.violations, c[0]))
-            elif 'sim' not in c[0] and not r.finished:
-                rep.broken.append('model checking %s did not finish' % c[0])
-    # the implementation and the model reach the same number of states on the shared configuration
+        return c, lib.tlc('MCHeap', c[0], workers=4, timeout=600 if quick else 900, xmx='4g')
+    def sim():
+        return (('MCHeap_sim.cfg', 'sizes 12..16 x cap 4, two codes, random histories of 40 operations'),
+                lib.tlc('MCHeap', 'MCHeap_sim.cfg', workers=2, timeout=600, simulate=1500 if quick else 6000, depth=40, xmx='2g'))
+    ex = concurrent.futures.ThreadPoolExecutor(max_workers=2)
+    futs = [ex.submit(mc, c) for c in mcs] + [ex.submit(sim)]
+    # ---- X (runs while the model checker works)
+    pairs = QUICK_X + (QUICK_X_EXTRA if quick else THOROUGH_X_EXTRA)
+    proj_quick = set()
+    batch = Batch()
+    nb = 0
+    def flush(force=False):
+        nonlocal batch, nb
+        if batch.lines and (force or len(batch.lines) >= 4 * CH):
+            validate(rep, w, batch, 'explore%d' % nb, procs=3 if not quick else 4)
+            batch = Batch(); nb += 1
+    for (size, cap) in pairs:
+        x = explore(rep, exe, w, size, cap, 400000)
+        if x is None:
+            continue
+        info, nd, locs, hist = x
+        if (size, cap) in QUICK_X:
+            projections(nd, proj_quick)
+        rep.cov['driver_runs'].append(dict(size=size, cap=cap, impl_concrete_states=info['concrete_states'], impl_transitions=info['transitions'],
+                                           alphabet=info['alphabet'], complete=info['complete'], distinct_records=len(locs)))
+        if not info['complete']:
+            rep.broken.append('exploration size=%d cap=%d incomplete' % (size, cap))
+        batch.add(nd, locs, hist, 'explore-%d-%d' % (size, cap))
+        flush()
+    flush(True)
+    # ---- V
+    walks = [(16, 2, 20000), (33, 4, 20000), (64, 3, 20000)] if quick else \
+            [(16, 2, 150000), (24, 1, 100000), (33, 4, 150000), (48, 8, 100000), (64, 3, 150000), (64, 6, 150000), (7, 2, 100000), (13, 3, 100000)]
+    for k, (size, cap, steps) in enumerate(walks):
+        raw = '%s/walk%d.raw' % (w, k)
+        sd = lib.seed() * 131 + k
+        d = lib.run_driver(exe, ['walk', sd, steps, size, cap, raw], timeout=600)
+        if d['rc'] != 0:
+            driver_failure(rep, d, 'walk seed=%d steps=%d size=%d cap=%d' % (sd, steps, size, cap))
+            continue
+        nd = raw[:-4] + '.ndjson'
+        locs = split_locs(raw, nd)
+        def hist(step, sd=sd, steps=steps, size=size, cap=cap):
+            dd = lib.run_driver(exe, ['walk', sd, steps, size, cap, '/dev/null', step])
+            h = dd['stdout'].decode().splitlines()
+            if dd['rc'] == 0:
+                return dict(history=h[:-1], size=size, cap=cap, walk=dict(seed=sd, step=step))
+            return dict(walk=dict(seed=sd, step=step, size=size, cap=cap))
+        rep.cov['driver_runs'].append(dict(walk_seed=sd, size=size, cap=cap, steps=steps, distinct_records=len(locs)))
+        batch.add(nd, locs, hist, 'walk-%d-%d' % (size, cap))
+        flush()
+    flush(True)
+    for fu in futs:
+        c, r = fu.result()
+        rep.add_tlc(c[0][:-4], r, 'model checking of ScpiHeap layer (b) incl. refinement of layer (a): ' + c[1])
+        model_states[c[0]] = r.distinct
+        if r.violations:
+            rep.broken.append('the ring-algorithm model violates %s in %s (replay the counterexample on the heap build)' % (r.violations, c[0]))
+        elif 'sim' not in c[0] and not r.finished and not r.errors:
+            rep.broken.append('model checking %s did not finish' % c[0])
+    ex.shutdown()
+    # the implementation and the model reach the same layouts on the shared configuration
     ms = model_states.get('MCHeap_quick.cfg')
     rep.cov['impl_abstract_states_quick_pairs'] = len(proj_quick)
     rep.cov['model_states_quick_pairs'] = ms
@@ -241,8 +272,11 @@ def replay(pid, path):
             rc = 1
             continue
         before = len(rep.viol)
-        validate(rep, nd, 'replay%d' % n)
-        for ln in open(nd):
+        lines = open(nd).read().splitlines()
+        b = Batch()
+        b.add(nd, None, None, 'replay%d' % n)
+        validate(rep, w, b, 'replay%d' % n, procs=1)
+        for ln in lines:
             t = json.loads(ln)
             print('  step', json.dumps(t['op']), '->', json.dumps(t['t']), 'out', bytes(t['out']).decode(errors='replace').strip())
         for k, dd in rep.viol[before:]:
